@@ -19,6 +19,14 @@ Fixpoint lim_tie (rt dt : Q) (nf psd : list Q) : bool :=
   | _, _ => false
   end.
 
+(* third stage: total outflow of a class (after the per-face limits) within tolerance of what it holds *)
+Fixpoint class_tie (rt dt : Q) (nf psd : list Q) : bool :=
+  match nf, psd with
+  | f0 :: ((f1 :: _) as r), p :: ps =>
+      near_tie rt (Qred ((qmax (- f0) 0 + qmax f1 0) * dt)) p || class_tie rt dt r ps
+  | _, _ => false
+  end.
+
 Record impl07 := { i_nf : list Q; i_dx : list Q; i_nf2 : list Q; i_dx2 : list Q; i_dt : Q; i_diss : nat }.
 
 (* result: (netFlux, dXdt, limiter tie?, corrected netFlux, corrected dXdt, getDT,
@@ -30,7 +38,7 @@ Definition check07 (rt : Q) (ties : bool) (b p g : list Q) (nr rn dt cur mr md :
   let dissFrac := mul Qops md (momentFromN Qops size p 3) in
   let cum := cumMomentFromN Qops size p 3 in
   let dmod := dissolutionIndex Qops size p md mi in
-  let ltie := ties && lim_tie (rt * 64) dt nf p in
+  let ltie := ties && (lim_tie (rt * 64) dt nf p || class_tie (rt * 64) dt (limitAbove Qops dt (limitBelow Qops dt nf p) p) p) in
   let dtie := ties && existsb (fun c => near_tie (rt * 1024) c dissFrac) cum in
   (cmpl_rel rt (i_nf im) nf,
    cmpl rt (i_dx im) (dXdt_of Qops nf b nr rn) (pairsum nr nf),
